@@ -111,41 +111,40 @@ func runC09(r *Run) {
 	r.Rule("C09.8", "constructors: option errors are accumulated (errors.Join(err, ...)), options never receive a nil config, options documented as required are validated")
 
 	// ---------- C09.1
-	type mp struct {
-		producer string
-		mappers  []string
+	producers := map[string]string{"HandleProposedHeader": "tmmirror.Mirror.HandleProposedHeader", "HandlePrevoteProofs": "tmmirror.Mirror.HandlePrevoteProofs", "HandlePrecommitProofs": "tmmirror.Mirror.HandlePrecommitProofs"}
+	mss := mapperSwitches(w)
+	if len(mss) < 6 {
+		r.Fail("C09.1", "mappers", "", fmt.Sprintf("expected the result switches of 2 mappers x 3 handler methods, found %d", len(mss)))
 	}
-	for _, m := range []mp{
-		{"tmmirror.Mirror.HandleProposedHeader", []string{"tmconsensus.AcceptAllValidFeedbackMapper.HandleProposedHeader", "tmconsensus.DropDuplicateFeedbackMapper.HandleProposedHeader"}},
-		{"tmmirror.Mirror.HandlePrevoteProofs", []string{"tmconsensus.AcceptAllValidFeedbackMapper.mapVoteResult", "tmconsensus.DropDuplicateFeedbackMapper.mapVoteResult"}},
-		{"tmmirror.Mirror.HandlePrecommitProofs", []string{"tmconsensus.AcceptAllValidFeedbackMapper.mapVoteResult", "tmconsensus.DropDuplicateFeedbackMapper.mapVoteResult"}},
-	} {
-		pf := w.Fn(m.producer)
+	prodConsts := map[string]*ConstSet{}
+	for meth, pn := range producers {
+		pf := w.Fn(pn)
 		if pf == nil {
-			r.Fail("C09.1", m.producer, "", "producer not found")
+			r.Fail("C09.1", pn, "", "producer not found")
 			continue
 		}
 		cs := w.ResultConsts(pf, 0)
 		if len(cs.Unknown) > 0 {
-			r.Fail("C09.1", m.producer+"(non-constant)", w.Pos(pf.Pos()), "handler result is not a constant on some path: "+strings.Join(cs.Unknown, " | "))
+			r.Fail("C09.1", pn+"(non-constant)", w.Pos(pf.Pos()), "handler result is not a constant on some path: "+strings.Join(cs.Unknown, " | "))
 		}
-		for _, mn := range m.mappers {
-			mf := w.Fn(mn)
-			if mf == nil {
-				r.Fail("C09.1", mn, "", "mapper not found")
-				continue
+		prodConsts[meth] = cs
+	}
+	for _, ms := range mss {
+		cs := prodConsts[ms.Method]
+		if cs == nil {
+			continue
+		}
+		mf := ms.Fn
+		cases := w.A(mf).SwitchCases("$_", 0)
+		deflt := cases["default"]
+		for _, c := range cs.Sorted() {
+			con := fmt.Sprintf("%s->tmconsensus.%s.%s[%s]", producers[ms.Method], ms.Mapper, ms.Method, c)
+			ci, handled := cases[c]
+			ok := handled && !ci.Panics && len(ci.Returns) > 0
+			if !handled && deflt != nil && !deflt.Panics {
+				ok = true
 			}
-			cases := w.A(mf).SwitchCases("$_", 0)
-			deflt := cases["default"]
-			for _, c := range cs.Sorted() {
-				con := fmt.Sprintf("%s->%s[%s]", m.producer, mn, c)
-				ci, handled := cases[c]
-				ok := handled && !ci.Panics && len(ci.Returns) > 0
-				if !handled && deflt != nil && !deflt.Panics {
-					ok = true
-				}
-				r.Check(ok, "C09.1", con, w.Pos(mf.Pos()), "the handler can return "+c+"; the mapper must translate it to a feedback value without panicking")
-			}
+			r.Check(ok, "C09.1", con, w.Pos(mf.Pos()), "the handler can return "+c+"; the mapper must translate it to a feedback value without panicking")
 		}
 	}
 	r.Expect("C09.1", 40, "result constants x mappers")
@@ -162,7 +161,7 @@ func runC09(r *Run) {
 			}
 		}
 		if fn := w.Fn("tmmirror.Mirror.HandleProposedHeader"); fn != nil {
-			a := w.A(fn)
+			a := w.AU(fn)
 			si := a.SwitchOn("$chk.Status")
 			for c := range produced {
 				ok := si.Handled[c] || !si.DefaultPanics
@@ -191,7 +190,7 @@ func runC09(r *Run) {
 				r.Fail("C09.2", pn, "", "producer not found")
 				continue
 			}
-			a := w.A(pf)
+			a := w.AU(pf)
 			if pair.viaSend {
 				for _, s := range a.Sends() {
 					if TypeName(s.Val.Type()) == "tmi.AddVoteResult" {
@@ -216,7 +215,7 @@ func runC09(r *Run) {
 			r.Fail("C09.2", pair.consumer, "", "consumer not found")
 			continue
 		}
-		ca := w.A(cf)
+		ca := w.AU(cf)
 		si := ca.SwitchOn("@gchan.ReqResp($...)#0")
 		for c := range produced {
 			if !strings.HasPrefix(c, "%tmi.AddVote") {
@@ -240,7 +239,7 @@ func runC09(r *Run) {
 			if cf == nil {
 				continue
 			}
-			si := w.A(cf).SwitchOn("@tmi.kState.FindView($...)#2")
+			si := w.AU(cf).SwitchOn("@tmi.kState.FindView($...)#2")
 			for _, st := range statuses {
 				con := "ViewLookupStatus[" + st + "]->" + cn
 				if why, ex := excluded[st]; ex {
@@ -325,7 +324,7 @@ func runC09(r *Run) {
 
 	// ---------- C09.4
 	if fn := w.Fn("tmi.Kernel.setPHCheckStatus"); fn != nil {
-		a := w.A(fn)
+		a := w.AU(fn)
 		type st struct {
 			in  ssa.Instruction
 			blk *ssa.BasicBlock
@@ -467,7 +466,7 @@ func runC09(r *Run) {
 	// ---------- C09.9 channels owned by another component are closed at most once
 	r.Rule("C09.9", "the state machine's HeightCommitted channel is closed only when the entrance height equals the committing height before the shift (a second shift for the same entrance cannot close it again: close of a closed channel panics)")
 	if fn := w.Fn("tmi.kState.ShiftVotingToCommitting"); fn != nil {
-		a := w.A(fn)
+		a := w.AU(fn)
 		n := 0
 		for _, c := range a.CallsTo("close") {
 			n++
@@ -499,7 +498,7 @@ func runC09(r *Run) {
 			r.Fail("C09.8", cn, "", "constructor not found")
 			continue
 		}
-		a := w.A(fn)
+		a := w.AU(fn)
 		// (a) errors.Join in the option loop includes the accumulated error
 		joined := false
 		nilCfg := false
@@ -539,7 +538,7 @@ func runC09(r *Run) {
 		r.Check(!nilCfg, "C09.8", cn+"(nil-config)", w.Pos(fn.Pos()), "options are invoked with a nil *StateMachineConfig although several options write through it")
 	}
 	if fn := w.Fn("tmengine.NewMirror"); fn != nil {
-		a := w.A(fn)
+		a := w.AU(fn)
 		e, _ := a.IfEdges("($e.genesis == nil)", false, nil)
 		ok := len(e) > 0
 		a.Instrs(func(in ssa.Instruction) {
@@ -573,7 +572,7 @@ func checkRequiredOptions(r *Run) {
 		r.Fail("C09.8", "validateSettings", "", "not found")
 		return
 	}
-	va := w.A(vs)
+	va := w.AU(vs)
 	validated := map[string]bool{}
 	for _, b := range vs.Blocks {
 		if len(b.Instrs) == 0 {
